@@ -99,10 +99,12 @@ class BrokerState:
                     waiter.has_requirements
                     and not waiter.requirements
                     and waiter.resolved_event is None
+                    and not waiter.timed_out
                 ):
-                    # A waiter that already holds its resolved event was matched
-                    # before the snapshot; its step is already queued for replay,
-                    # so re-delivering the input would run the step twice.
+                    # A waiter that already holds its resolved event (or timed
+                    # out) was settled before the snapshot; its step is already
+                    # queued for replay, so re-delivering the input would run the
+                    # step twice.
                     commands.append(
                         TickAddEvent(event=waiter.event, step_name=step_name)
                     )
@@ -148,6 +150,7 @@ class BrokerState:
                     resolved_event=serializer.serialize(waiter.resolved_event)
                     if waiter.resolved_event
                     else None,
+                    timed_out=waiter.timed_out,
                 )
                 for waiter in worker_state.collected_waiters
             ]
@@ -238,6 +241,7 @@ class BrokerState:
                         )
                         if waiter_data.resolved_event
                         else None,
+                        timed_out=waiter_data.timed_out,
                     )
                 )
 
